@@ -171,6 +171,16 @@ def run(R, only=None):
                 conds.append(f"a {'>=' if r['start'][0] == 'in' else '>'} {r['start'][1][1]}")
             if r["end"]:
                 conds.append(f"a {'<=' if r['end'][0] == 'in' else '<'} {r['end'][1][1]}")
+        # redundant looser bounds on the key, before or after the tight ones: the range analysis must combine several bounds of one conjunction
+        if rng.random() < 0.4:
+            extra = []
+            lo_v = r["start"][1][1] if r["start"] else None
+            hi_v = r["end"][1][1] if r["end"] else None
+            if lo_v is not None and rng.random() < 0.7:
+                extra.append(f"a {rng.choice(['>', '>='])} {lo_v - rng.randint(1, 6)}")
+            if hi_v is not None and rng.random() < 0.7:
+                extra.append(f"a {rng.choice(['<', '<='])} {hi_v + rng.randint(1, 6)}")
+            conds = extra + conds if rng.random() < 0.5 else conds + extra
         resid = rng.choice([None, None, "b > 3", "b < 8"])
         if resid:
             conds.append(resid)
